@@ -220,3 +220,30 @@ Qed.
 Lemma gllid_deterministic : forall clamp H p s max a b,
   gllid clamp H p s max = a -> gllid clamp H p s max = b -> a = b.
 Proof. intros; congruence. Qed.
+
+(* exactly when the code panics instead of returning a name (digest text of the stated length) *)
+Theorem gllid_none_iff : forall clamp H p s max,
+  (forall x, length (H x) = hash_len) ->
+  (gllid clamp H p s max = None <->
+   shortened clamp p s max /\ (left_chars clamp p max = 0 \/ hash_len < left_chars clamp p max)).
+Proof.
+  intros clamp H p s max HL. unfold gllid, shortened, left_chars.
+  destruct (must_shorten clamp (length p) (eff s) max).
+  - rewrite HL. destruct (_ =? 0) eqn:E0.
+    + apply Nat.eqb_eq in E0. split; [intros _; split; [reflexivity|left; exact E0]|reflexivity].
+    + apply Nat.eqb_neq in E0. destruct (_ <? _) eqn:E1.
+      * apply Nat.ltb_lt in E1. split; [intros _; split; [reflexivity|right; exact E1]|reflexivity].
+      * apply Nat.ltb_ge in E1. split; [discriminate|]. intros [_ [X|X]]; lia.
+  - split; [discriminate|]. intros [X _]. discriminate.
+Qed.
+
+(* repaired rule: the only panic left is "no room for even one digest character" *)
+Theorem gllid_none_iff_clamped : forall H p s max,
+  (forall x, length (H x) = hash_len) ->
+  (gllid true H p s max = None <-> shortened true p s max /\ max <= length p + 1).
+Proof.
+  intros H p s max HL. rewrite (gllid_none_iff true H p s max HL).
+  unfold left_chars, short_len, hash_len. split.
+  - intros [S [L|L]]; [split; [exact S|lia]|lia].
+  - intros [S B]. split; [exact S|left; lia].
+Qed.
